@@ -68,6 +68,10 @@ def AbsEq (db : Db) (s t : JState) : Prop :=
   (∀ a, (absAcct db s a).eqv (absAcct db t a)) ∧
   (∀ a k, tload s a k = tload t a k) ∧ s.logs = t.logs
 
+/-- well-formedness of a journaled state over its database: every balance, cached or still in the
+database, is a 256-bit word (what `U256` guarantees in the Rust; the model's words are unbounded `Nat`s) -/
+def WF (db : Db) (s : JState) : Prop := ∀ a, (absAcct db s a).balance < W
+
 /-! ## histories -/
 
 inductive Op
